@@ -28,6 +28,13 @@ func (ex *Exec) lemma(lm *LemmaSpec) {
 		ex.specError("lemma %s has no ensures", lm.Name)
 		return
 	}
+	for i, sx := range lm.Steps {
+		sv := ex.evalSpecLemma(st, fr, sx, extra)
+		sob := ex.obligeRaw(st, "lemma", fmt.Sprintf("lemma/%s/step%d", lm.Name, i), lm.Labels, sv.T)
+		sob.Clause = &Clause{Text: lm.StepText[i], File: lm.File, Line: lm.Line}
+		st = st.clone()
+		st.assume(sv.T)
+	}
 	g := ex.evalSpecLemma(st, fr, lm.Goal, extra)
 	ob := ex.obligeRaw(st, "lemma", "lemma/"+lm.Name, lm.Labels, g.T)
 	ob.Clause = &Clause{Text: lm.Text, File: lm.File, Line: lm.Line}
